@@ -230,7 +230,7 @@ class kMinPathError(pathmodel.AbstractPathModelDAG):
             self.k = self.G.get_width(list(self.edges_to_ignore))
         self.original_k = self.k
         self.solution_weights_superset = solution_weights_superset
-        self.optimization_options = optimization_options or {}        
+        self.optimization_options = optimization_options.copy() if optimization_options else {}  # never modify the caller's dict
 
         if self.solution_weights_superset is not None:
             self.k = len(self.solution_weights_superset)
